@@ -147,6 +147,9 @@ func runC14(p *Prog, r *Report) {
 		r.Check(okAll && n >= 4, "leveldb/memdb.DB.kvData", "arena-grows-by-append", "kvData is only ever assigned append(kvData, …), a re-slice or a fresh make", fmt.Sprintf("%d stores, all of the allowed forms: %v", n, okAll), "")
 		r.End()
 	}
+	if want("C14.10") {
+		ruleMemdbIterDirection(p, r, "C14.10")
+	}
 	if want("C14.9") {
 		ruleMemdbReset(p, r, "C14.9")
 	}
